@@ -298,3 +298,24 @@ def register(mut):
     mut('reusable-buffer-short', 'coro_storage.h',
         '''        std::size_t items = (sz+itemsz-1)/itemsz;''',
         '''        std::size_t items = (sz+itemsz-1)/itemsz - (sz > 1000 ? 16 : 0);''', ['C19'])
+    mut('sp-inline-count-2', 'suspend_point.h',
+        '''    static constexpr int inline_count = 3;''',
+        '''    static constexpr int inline_count = 2;''', ['C20'])
+    mut('chain-uses-vector', 'awaiter.h',
+        '''    static suspend_point<void> resume_chain_lk(awaiter *chain) {
+        suspend_point<void> ret;
+        while (chain) {''',
+        '''    static suspend_point<void> resume_chain_lk(awaiter *chain) {
+        suspend_point<void> ret;
+        std::vector<awaiter *> tmp; for (auto x = chain; x; x = x->_next) tmp.push_back(x);
+        while (chain) {''', ['C20'])
+    mut('mutex-ownership-shared-ptr', 'mutex.h',
+        '''        suspend_point<void> release() {
+            suspend_point<void> ret;''',
+        '''        suspend_point<void> release() {
+            auto dbg = std::make_shared<int>(1);
+            suspend_point<void> ret;''', ['C20'])
+    mut('generator-next-allocates', 'generator.h',
+        '''        void next_sync() {''',
+        '''        void next_sync() {
+            std::unique_ptr<int> scratch(new int(0));''', ['C20'])
